@@ -168,8 +168,7 @@ fn rand_cache_op(ctx: &mut Ctx, keys: &[(i64, usize, usize)], allow_admin: bool)
         0..=7 => format!("b {} {} {}", tb, n, vec_to_wire(&rand_vec(ctx, d, vk))),
         8 => { let v: Vec<i8> = (0..d).map(|_| ctx.range(-128, 127) as i8).collect(); format!("b8 {} {} {}", tb, n, v8_to_wire(&v)) }
         9 => format!("bd {} {} {}", tb, n, vec_to_wire(&rand_vec(ctx, d, vk))),
-        // finite vectors only: with infinities the boundary distances can be NaN (see c26.ranked)
-        10 => { let k = if vk == 6 { 1 } else { vk }; format!("mp {} {} {} {}", tb, n, ctx.below(12), vec_to_wire(&rand_vec(ctx, d, k))) }
+        10 => format!("mp {} {} {} {}", tb, n, ctx.below(12), vec_to_wire(&rand_vec(ctx, d, vk))),
         11 => format!("pw {} {} {}", tb, n, d),
         12 => format!("bs {} {} {}", 1 + ctx.below(4), n, vec_to_wire(&rand_vec(ctx, d, vk))),
         13 => "st".to_string(),
@@ -298,17 +297,8 @@ fn exec_quant(a: &[f32]) -> String {
 }
 
 fn exec_ranked(bucket: i64, m: usize, d: &[f64]) -> String {
-    let p = vo::lsh_probes_ranked(bucket, d, m);
-    let nn = d.len().min(62);
-    if d.iter().take(nn).any(|x| x.is_nan()) {
-        // comparator is not a total order: only order-independent facts are compared
-        let head = p.first().map(|x| *x == bucket).unwrap_or(true);
-        let mut s = p.clone(); s.sort(); s.dedup();
-        let hds: Vec<u32> = p.iter().map(|x| (x ^ bucket).count_ones()).collect();
-        let mono = hds.windows(2).all(|w| w[0] <= w[1]);
-        let inrange = p.iter().all(|x| ((x ^ bucket) as u64) >> nn == 0);
-        format!("nanorder len={} head={} nodup={} mono={} inrange={} maxhd={}", p.len(), head as u8, (s.len() == p.len()) as u8, mono as u8, inrange as u8, hds.iter().max().copied().unwrap_or(0))
-    } else { ints(&p) }
+    // NaN distances sort last (stable): the order is specified, compared verbatim
+    ints(&vo::lsh_probes_ranked(bucket, d, m))
 }
 
 fn cache_op(op: &str) -> String {
@@ -323,12 +313,7 @@ fn cache_op(op: &str) -> String {
             (Some(t), Some(n), Some(v)) => { let (b, d) = vo::lsh_bucket_with_distances(&v, t, n); format!("{}:{}", b, if d.is_empty() { "-".into() } else { d.iter().map(|x| f64w(*x)).collect::<Vec<_>>().join("/") }) }
             _ => "bad".into() },
         "mp" => match (i6(1), us(2), us(3), a.get(4).and_then(|s| vec_of_wire(s))) {
-            (Some(t), Some(n), Some(m), Some(v)) => {
-                if v.iter().any(|x| !x.is_finite()) {
-                    // distances may be NaN: order unspecified; go through the two halves separately
-                    let (b, d) = vo::lsh_bucket_with_distances(&v, t, n); let _ = vo::lsh_multi_probe(&v, t, n, m); exec_ranked(b, m, &d)
-                } else { ints(&vo::lsh_multi_probe(&v, t, n, m)) }
-            }
+            (Some(t), Some(n), Some(m), Some(v)) => ints(&vo::lsh_multi_probe(&v, t, n, m)),
             _ => "bad".into() },
         "pw" => match (i6(1), us(2), us(3)) { (Some(t), Some(n), Some(d)) => { vo::prewarm_lsh_cache(t, n, d); "-".into() } _ => "bad".into() },
         "cl" => { vo::clear_lsh_cache(); "-".into() }
